@@ -11,6 +11,12 @@ PROJ = R.proj_rows
 
 
 def oracle(c, real):
+    if "err" in real and c.get("kind") == "hapnames" and real["err"] in ("ChrNamerError", "TaggingError"):
+        # input scaffolds named for DIFFERENT haplotypes and painted in an order the autosome namer rejects: the tool's own validation of
+        # the haplotype pattern (ChrNamerError), not a remapping failure — `painted_none_none_hap_raises` (C02Returns.lean) is the
+        # kernel-checked witness that the uniform-haplotype hypothesis of `script_remap_ok_uniform` cannot be dropped; model and code
+        # are still compared on it
+        return []
     if "err" in real:
         return [f"remapping a PretextView-model script failed with {real['err']}"]
     return R.oracle_placement(c["input"], c["ptx"], real, c["bpt"])
@@ -21,7 +27,8 @@ CLASSIFY = None
 
 def streams(ctx):
     n = 16 if ctx.thorough else 1
-    return [("scripts", "script", 700 * n), ("scripts-rev", "script", 300 * n)]
+    return [("scripts", "script", 700 * n), ("scripts-rev", "script", 300 * n),
+            ("scripts-one-haplotype-names", "hapuniform", 150 * n), ("scripts-mixed-haplotype-names", "hapnames", 150 * n)]
 
 
 def gen(ctx, kind):
@@ -109,4 +116,12 @@ def replay(ctx, payload):
 
 LEVEL_NOTE = LEVEL_NOTE + " NEW: `deep_map_rearranges` (Properties/C02Deep.lean): maps that cut DEEP inside contigs (> 3·err bases of the shared contig on both sides of every cut, any number of cuts per contig, both strands, untagged class) are remapped to the explicit spec with cuts = incidences − shared contigs, and `deep_cut_position` gives the exact cut coordinate (last sentence of C02); the guards the margin rests on (`trim_large_overhangs` tests, `improves` with the −3·err guard, the `make_fixes` tests) are TRANSLATED from the current source and proved equal to the model's (Properties/C02Source.lean, T1b)"
 
-LEVEL_NOTE = LEVEL_NOTE + " NEWER: `Properties/C02Core.lean` — the 3·err margin for ALL maps with pairwise disjoint Pretext fragments (`PtxDisjoint`, what every PretextView map satisfies): `ops_keep_core` (K1, per result, any guarded operation sequence), `remap_keeps_core` (K2, every resolver round), `remap_core_in_one_scaffold` (K3: the core's rows are one contiguous run of one output scaffold in the assembly routeKey prescribes, reversed and strand-negated iff the piece is minus), `deep_cut_exact_any_map` (K4: a cut deeper than 3·err inside a contig splits it exactly at the Pretext coordinate, any map) with kernel-checked counter-examples for the dropped side conditions; `Properties/C02Script.lean` + `Model/Pretext.lean` — the PretextView edit-script model as a Lean object (`Script`, `wfScript`, `ptxOf`; tiling `script_pieces_tile`, piece length, `null_script_unedited`, `aligned_script_is_Aligned`, `deep_script_is_DeepCut`, `script_leftovers_are_suffix`), tied to the Python generator by the `script-model` stream (driver kind `script`). Still open: 'remapping completes without error' for every script (the QC never failing) is decided by correspondence + oracle only"
+LEVEL_NOTE = LEVEL_NOTE + " NEWER: `Properties/C02Core.lean` — the 3·err margin for ALL maps with pairwise disjoint Pretext fragments (`PtxDisjoint`, what every PretextView map satisfies): `ops_keep_core` (K1, per result, any guarded operation sequence), `remap_keeps_core` (K2, every resolver round), `remap_core_in_one_scaffold` (K3: the core's rows are one contiguous run of one output scaffold in the assembly routeKey prescribes, reversed and strand-negated iff the piece is minus), `deep_cut_exact_any_map` (K4: a cut deeper than 3·err inside a contig splits it exactly at the Pretext coordinate, any map) with kernel-checked counter-examples for the dropped side conditions; `Properties/C02Script.lean` + `Model/Pretext.lean` — the PretextView edit-script model as a Lean object (`Script`, `wfScript`, `ptxOf`; tiling `script_pieces_tile`, piece length, `null_script_unedited`, `aligned_script_is_Aligned`, `deep_script_is_DeepCut`, `script_leftovers_are_suffix`), tied to the Python generator by the `script-model` stream (driver kind `script`). "
+
+LEVEL_NOTE = LEVEL_NOTE + (" NEWEST (waves 7–8): `Properties/C02Order.lean` — `remap_pretext_order` / `core_order`: pieces of one Pretext scaffold that share a destination follow each other "
+    "in Pretext order, for ALL disjoint maps; `Properties/C02NoError.lean` — `script_remap_to_input_ok`: for EVERY well-formed `Script` (Model/Pretext.lean) `remapToInput` returns "
+    "(holders of a contig are consecutive, the cut QC passes for tilings: `cut_qc_passes_for_tiling`); `Properties/C02Returns.lean` — `script_remap_ok` / `script_remap_ok_uniform`: the WHOLE "
+    "`remap` (naming, routing, ChrNamer, stats) returns `.ok` for every well-formed script, painted, unpainted or mixed, over inputs whose scaffold names carry one haplotype "
+    "(or none), and `script_c02` bundles no-error + K2 + K3 + O2 + K4 about one and the same run — i.e. the C02 statement as a single theorem over the Lean script model. The hypothesis "
+    "is sharp: `painted_none_none_hap_raises` (kernel-evaluated) shows that inputs named for DIFFERENT haplotypes and painted in an order the autosome namer rejects give ChrNamerError in "
+    "model AND code (the tool's own validation of the haplotype pattern; streams `scripts-one-haplotype-names` must never raise, `scripts-mixed-haplotype-names` compare model and code).")
